@@ -396,11 +396,26 @@ pub fn run_model<M: Matcher>(m: &mut M, case: &Case) -> ModelOut {
                     Dec::SwitchRet(j) => (false, true, Some(j), None),
                     Dec::ResetRet => (true, true, None, None),
                     Dec::ResetSwitch(j) => (true, false, Some(j), None),
+                    // a nonce with a non-zero top byte also names a rule set (named lexers only):
+                    // `switch_and_return(set, Err(..))`
+                    Dec::Err(x) if x >> 24 != 0 && named => (false, false, Some((x >> 24) - 1), Some(x)),
                     Dec::Err(x) => (false, false, None, Some(x)),
                 };
                 if reset_first {
                     facts.resets += 1;
                     s = end;
+                    if kind.logged() {
+                        // what the handle reports right after reset_match(): an empty match at
+                        // the current position
+                        log.push(LogEntry {
+                            item_idx: items.len() as u32,
+                            rule: id | proto::POST_RESET,
+                            start: locs[end],
+                            end: locs[end],
+                            text: if use_match { Some(String::new()) } else { None },
+                            peek: chars.get(end).copied(),
+                        });
+                    }
                 }
                 if let Some(j) = switch_to {
                     set = (j % n_sets) as usize;
